@@ -94,6 +94,36 @@ def run(ctx):
             try:
                 if gp == "full":
                     L = np.asarray(par.compute_L(x, cov, gp_type="full", jitter=j), dtype=float)
+                    # a full model's factor is that of the cells, whatever inducing points are offered alongside
+                    for lname, lmk in (("n-other-points", dataset(r, n, d, "gauss")), ("cells-reversed", x[::-1].copy()), ("more-than-n", dataset(r, n + 4, d, "gauss"))):
+                        try:
+                            L2 = np.asarray(par.compute_L(x, cov, gp_type="full", landmarks=lmk, jitter=j), dtype=float)
+                        except Exception as e:      # noqa
+                            ctx.violation("C04|full|landmarks-offered|%s" % type(e).__name__,
+                                          "compute_L(gp_type='full', landmarks=...) raises %s: %s" % (type(e).__name__, str(e)[:150]),
+                                          rp({"landmarks_offered": lname, "landmarks_array": np.asarray(lmk).tolist()}))
+                            continue
+                        if L2.shape != L.shape or not np.array_equal(L2, L):
+                            ctx.violation("C04|full|landmarks-offered|L", "the factor of a full model depends on the inducing points offered with it",
+                                          rp({"landmarks_offered": lname, "landmarks_array": np.asarray(lmk).tolist(),
+                                              "max_difference": float(np.abs(L2 - L).max()) if L2.shape == L.shape else "shape"}))
+                        # the same through the estimator (Lp is computed first and handed to compute_L): at least n landmarks => full
+                        if cfg["id"] % 2 == 0:
+                            import mellon
+                            try:
+                                est = mellon.DensityEstimator(cov_func=cov, landmarks=lmk, jitter=j)
+                                est.prepare_inference(x)
+                                Le = np.asarray(est.L, dtype=float)
+                            except Exception as e:      # noqa
+                                ctx.violation("C04|full|estimator-landmarks-offered|%s" % type(e).__name__,
+                                              "DensityEstimator(cov_func=cov, landmarks=<at least n points>).prepare_inference(x) raises %s: %s"
+                                              % (type(e).__name__, str(e)[:150]), rp({"landmarks_offered": lname, "landmarks_array": np.asarray(lmk).tolist()}))
+                                continue
+                            if Le.shape != L.shape or not np.array_equal(Le, L):
+                                ctx.violation("C04|full|estimator-landmarks-offered|L",
+                                              "with at least n inducing points the model is full, but its factor is not that of the cells",
+                                              rp({"landmarks_offered": lname, "landmarks_array": np.asarray(lmk).tolist(), "resolved_gp_type": str(est.gp_type),
+                                                  "max_difference": float(np.abs(Le - L).max()) if Le.shape == L.shape else "shape"}))
                 elif gp == "full_nystroem":
                     if isinstance(rank, int) and rank >= n:     # compute_L refuses rank = n (documented); the routine itself keeps all pairs
                         L = np.asarray(dec._full_decomposition_low_rank(x, cov, rank=rank, jitter=j), dtype=float)
